@@ -2,6 +2,7 @@
 package main
 
 import (
+	"path/filepath"
 	"encoding/json"
 	"flag"
 	"fmt"
@@ -183,3 +184,13 @@ func fmtVec(v *interp.Vector) string {
 }
 
 var _ = time.Now
+
+// evidenceDir is /verif/evidence; GOSYM_EVIDENCE_DIR redirects it (used only by
+// tools/retest_seeds.sh, which runs the checks against scratch copies of the
+// repository carrying a seeded change and must not touch the real evidence).
+func evidenceDir() string {
+	if d := os.Getenv("GOSYM_EVIDENCE_DIR"); d != "" {
+		return d
+	}
+	return filepath.Join(verifDir, "evidence")
+}
